@@ -255,10 +255,28 @@ U("create_arrays_b_33", "cjson", "harness/create_arrays_b.c", tiers=("thorough",
 U("setvaluestring_b", "cjson", "harness/setvaluestring_b.c", no_contract=True, shape="B", bound="old string <= 3 bytes, new string <= 4 bytes", funcs=["cJSON_SetValuestring"],
   props=["C06", "C07", "C08"], covers=4, unwind=8, timeout=(900, 3000), ignore_desc=[r"same object violation"],
   note="the overlap test in cJSON_SetValuestring compares pointers into unrelated objects (flagged by CBMC as 'same object violation'; benign on flat address spaces, not a claim of any property here)")
-for _op, _opn in enumerate(("add", "remove", "replace", "move", "copy", "test", "bogus")):
-    for _nd in (1, 2):
-        U("u_applypatch_b_%s%d" % (_opn, _nd), "both", "harness/u_applypatch_b.c", no_contract=True, shape="B", bound="object document with %d members, one '%s' operation, paths '' or '/<key>'" % (_nd, _opn),
-          funcs=["apply_patch", "cJSONUtils_ApplyPatchesCaseSensitive", "detach_path", "decode_patch_operation", "compare_json", "overwrite_item", "get_item_from_pointer"],
-          props=["C16"], covers=3, unwind=8, unwindset=["cJSON_Delete:3", "cJSON_Delete.0:6", "cJSON_Duplicate_rec:3", "cJSON_Duplicate_rec.0:3", "vf_block.0:10", "sort_list:3", "sort_list.0:3", "sort_list.1:3", "sort_list.2:3", "compare_json:3", "compare_json.0:3", "compare_json.1:3", "mkstr.0:9"], timeout=(1200, 3000),
-          defs=["-DAP_ND=%d" % _nd, "-DAP_OP=%d" % _op, "-Dh_u_applypatch_b=h_u_applypatch_b_%s%d" % (_opn, _nd)], tiers=(("quick", "thorough") if _nd == 1 else ("thorough",)),
-          note="members present / absent / wrong type; reference = RFC 6902 on a key/value model")
+_AP_UW = ["cJSON_Delete:3", "cJSON_Delete.0:6", "cJSON_Duplicate_rec:3", "cJSON_Duplicate_rec.0:3", "sort_list:3", "sort_list.0:3", "sort_list.1:3", "sort_list.2:3", "compare_json:3", "compare_json.0:3", "compare_json.1:3", "mkstr.0:9"]
+_AP_F = ["apply_patch", "cJSONUtils_ApplyPatchesCaseSensitive", "detach_path", "decode_patch_operation", "compare_json", "overwrite_item", "get_item_from_pointer"]
+def _ap(name, nd, op, path, frm, value, extra=()):
+    U("u_ap_" + name, "both", "harness/u_applypatch_b.c", no_contract=True, shape="B", bound="scenario: object document with %d members, op %s, path kind %d, from kind %d, value %d" % (nd, op, path, frm, value), funcs=_AP_F,
+      props=["C16"], covers=1, unwind=8, unwindset=_AP_UW, timeout=(600, 1800),
+      defs=["-DAP_ND=%d" % nd, "-DAP_OP=%d" % ("add remove replace move copy test bogus".split().index(op)), "-DAP_PATH=%d" % path, "-DAP_FROM=%d" % frm, "-DAP_VALUE=%d" % value, "-Dh_u_applypatch_b=h_u_ap_" + name] + list(extra),
+      note="one enumerated scenario (member values symbolic); reference = RFC 6902 on a key/value model; ledger balance")
+for _nd in (1, 2):
+    for _p in (0, 1, 2):
+        for _v in (0, 1):
+            _ap("add_%d%d%d" % (_nd, _p, _v), _nd, "add", _p, 0, _v)
+            _ap("replace_%d%d%d" % (_nd, _p, _v), _nd, "replace", _p, 0, _v)
+            _ap("test_%d%d%d" % (_nd, _p, _v), _nd, "test", _p, 0, _v)
+        _ap("remove_%d%d" % (_nd, _p), _nd, "remove", _p, 0, 0)
+    for _p in (1, 2):
+        for _f in (0, 1, 2, 3, 4):
+            _ap("move_%d%d%d" % (_nd, _p, _f), _nd, "move", _p, _f, 0)
+            _ap("copy_%d%d%d" % (_nd, _p, _f), _nd, "copy", _p, _f, 0)
+    _ap("bogus_%d" % _nd, _nd, "bogus", 1, 0, 1)
+_ap("remove_case", 2, "remove", 3, 0, 0)
+_ap("replace_case", 2, "replace", 3, 0, 1)
+_ap("move_case", 2, "move", 2, 5, 0)
+_ap("add_case", 2, "add", 3, 0, 1)
+for _i, (_ho, _os, _hp, _ps) in enumerate(((0, 1, 1, 1), (1, 0, 1, 1), (1, 1, 0, 1), (1, 1, 1, 0))):
+    _ap("malformed_%d" % _i, 1, "add", 1, 2, 1, extra=["-DAP_MALFORMED", "-DAP_HASOP=%d" % _ho, "-DAP_OPSTR=%d" % _os, "-DAP_HASPATH=%d" % _hp, "-DAP_PATHSTR=%d" % _ps])
